@@ -209,6 +209,8 @@ func exec(t []string) string {
 		return bitsOf(f) + " " + sb.String()
 	case "txf":
 		return execTxf(t)
+	case "txf2":
+		return execTxf2(t)
 	case "reload": // reload <bitsA> <hfA> <twA> <bitsB> <hfB> <twB> <data>: one Filter object, loaded with A, then Reload(B)
 		f := mkFilter(t[1], t[2], t[3], "-")
 		nb := mkFilter(t[4], t[5], t[6], "-").GetFilterLoadMsg()
@@ -464,6 +466,40 @@ func oracle(t []string, out string) *hx.Violation {
 				}
 			}
 		}
+	case "txf2":
+		o := parseTxf2(t)
+		var fl msg.FilterLoad
+		if o.typ > 5 || fl.Deserialize(bytes.NewReader(o.wire)) != nil || fl.Tweak == math.MaxUint32 {
+			return nil
+		}
+		if out == "err-add" {
+			for _, a := range o.adds {
+				if len(a) > msg.MaxFilterAddDataSize {
+					return nil
+				}
+			}
+			return &hx.Violation{Kind: "filteradd-refused", Detail: "a loaded filter refused a filteradd element within the protocol limit (520 bytes): the wallet's item is never watched"}
+		}
+		if len(f) != 2 {
+			return nil
+		}
+		watched := map[string]bool{}
+		for _, a := range o.adds {
+			watched[string(a)] = true
+		}
+		for _, in := range o.ins {
+			if watched[string(in.Bytes())] && f[0] != "true" {
+				return &hx.Violation{Kind: "tx-false-negative", Detail: "transaction spends an outpoint added with filteradd but MatchConfirmed returned false"}
+			}
+		}
+		if o.k < len(o.outs) && watched[string(o.outs[o.k])] {
+			if f[0] != "true" {
+				return &hx.Violation{Kind: "tx-false-negative", Detail: fmt.Sprintf("filter type %d: transaction pays to a watched script hash but MatchConfirmed returned false", o.typ)}
+			}
+			if f[1] != "true" {
+				return &hx.Violation{Kind: "outpoint-not-added", Detail: fmt.Sprintf("filter type %d: output %d of a matched transaction pays to a watched script hash, but the transaction that spends it afterwards is not matched (the filter was not updated with the outpoint)", o.typ, o.k)}
+			}
+		}
 	case "txf":
 		if out != "true" && out != "false" {
 			return nil
@@ -603,6 +639,8 @@ func bucket(t []string, out string) string {
 			return t[0] + "/empty-filter"
 		}
 		return t[0] + "/ok"
+	case "txf2":
+		return "txf2/type" + t[1] + "/" + strings.ReplaceAll(out, " ", "-")
 	case "txf":
 		return fmt.Sprintf("txf/type%s/%s/%s", t[1], map[string]string{"1": "confirmed", "0": "unconfirmed"}[t[3]], cls)
 	case "reload":
@@ -892,13 +930,16 @@ func gen(g *hx.Gen) {
 
 // newServerFilter is the closure of elanet.newServerPeer (its text is pinned by Gen.C39.serverDispatch);
 // IsDPOSTransaction reads nothing of the state, so an empty State stands in for the chain's.
+// sideState is the DPoS state the side filter consults (IsDPOSTransaction reads only its Votes map).
+var sideState = &dstate.State{StateKeyFrame: dstate.NewStateKeyFrame()}
+
 func newServerFilter() *filter.Filter {
 	return filter.New(func(typ uint8) filter.TxFilter {
 		switch typ {
 		case filter.FTBloom:
 			return bloom.NewTxFilter()
 		case filter.FTDPOS:
-			return sidefilter.New(&dstate.State{})
+			return sidefilter.New(sideState)
 		case filter.FTNexTTurnDPOSInfo:
 			return nextturndposfilter.New()
 		case filter.FTCustomID:
@@ -916,6 +957,10 @@ var typedTxTypes = []byte{0x00, 0x02, 0x03, 0x09, 0x0a, 0x0b, 0x0c, 0x0d, 0x0e, 
 
 // mkTypedTx builds a real transaction of the given type; vote: 0 none, 1 producer vote output, 2 CRC-only vote output.
 func mkTypedTx(ty byte, version byte, vote int, ptype int, lock uint32, outs [][]byte) interfaces.Transaction {
+	return mkTypedTxIn(ty, version, vote, ptype, lock, outs, nil)
+}
+
+func mkTypedTxIn(ty byte, version byte, vote int, ptype int, lock uint32, outs [][]byte, ins []*ctypes.OutPoint) interfaces.Transaction {
 	var pl interfaces.Payload
 	switch ctypes.TxType(ty) {
 	case ctypes.CoinBase:
@@ -971,7 +1016,11 @@ func mkTypedTx(ty byte, version byte, vote int, ptype int, lock uint32, outs [][
 		outputs = append(outputs, &ctypes.Output{Value: 1, Type: ctypes.OTVote, Payload: &outputpayload.VoteOutput{Version: outputpayload.VoteProducerAndCRVersion,
 			Contents: []outputpayload.VoteContent{{VoteType: outputpayload.CRC, CandidateVotes: []outputpayload.CandidateVotes{{Candidate: bytes.Repeat([]byte{3}, 34), Votes: 1}}}}}})
 	}
-	return transaction.CreateTransaction(ctypes.TransactionVersion(version), ctypes.TxType(ty), 0, pl, []*ctypes.Attribute{}, nil, outputs, lock, []*program.Program{})
+	var inputs []*ctypes.Input
+	for _, op := range ins {
+		inputs = append(inputs, &ctypes.Input{Previous: *op})
+	}
+	return transaction.CreateTransaction(ctypes.TransactionVersion(version), ctypes.TxType(ty), 0, pl, []*ctypes.Attribute{}, inputs, outputs, lock, []*program.Program{})
 }
 
 func safeHash(tx interfaces.Transaction) (h common.Uint256, ok bool) {
@@ -1041,6 +1090,81 @@ func execTxf(t []string) string {
 		return b2s(f.MatchConfirmed(o.tx))
 	}
 	return b2s(f.MatchUnconfirmed(o.tx))
+}
+
+// txf2 <typ> <wire> <n> add.. <ty1> <ptype1> <hash1> <lock1> <nOut> ph.. <nIn> txid:idx.. <hash2> <lock2> <k>
+// filter of type typ loaded from the wire, filteradds (script hashes and 34-byte outpoints), a confirmed transaction tx1,
+// then a confirmed transaction tx2 that only spends output k of tx1.
+type txf2Op struct {
+	typ      uint8
+	wire     []byte
+	adds     [][]byte
+	tx1, tx2 interfaces.Transaction
+	h1, h2   []byte
+	outs     [][]byte
+	ins      []*ctypes.OutPoint
+	k        int
+	vref     bool // the first input of tx1 refers to a vote output recorded in the DPoS state
+}
+
+func parseTxf2(t []string) *txf2Op {
+	o := &txf2Op{typ: uint8(atoi(t[1])), wire: hx.UnHex(t[2])}
+	n := atoi(t[3])
+	i := 4
+	for j := 0; j < n; j++ {
+		o.adds = append(o.adds, hx.UnHex(t[i]))
+		i++
+	}
+	ty, ptype := byte(atoi(t[i])), atoi(t[i+1])
+	o.h1 = hx.UnHex(t[i+2])
+	lock1 := u32(t[i+3])
+	m := atoi(t[i+4])
+	i += 5
+	for j := 0; j < m; j++ {
+		o.outs = append(o.outs, hx.UnHex(t[i]))
+		i++
+	}
+	q := atoi(t[i])
+	i++
+	for j := 0; j < q; j++ {
+		o.ins = append(o.ins, outpointOf(t[i]))
+		i++
+	}
+	o.h2 = hx.UnHex(t[i])
+	lock2 := u32(t[i+1])
+	o.k = atoi(t[i+2])
+	o.vref = t[i+3] == "1"
+	i++
+	if i+3 != len(t) {
+		panic("harness: trailing tokens in txf2 op")
+	}
+	o.tx1 = mkTypedTxIn(ty, 9, 0, ptype, lock1, o.outs, o.ins)
+	o.tx2 = mkTypedTxIn(2, 9, 0, 0, lock2, nil, []*ctypes.OutPoint{ctypes.NewOutPoint(uint256Of(o.h1), uint16(o.k))})
+	return o
+}
+
+func execTxf2(t []string) string {
+	o := parseTxf2(t)
+	a, b := o.tx1.Hash(), o.tx2.Hash()
+	if !bytes.Equal(a[:], o.h1) || !bytes.Equal(b[:], o.h2) {
+		return "hash-mismatch"
+	}
+	sideState.Votes = map[string]struct{}{}
+	if o.vref && len(o.ins) > 0 {
+		sideState.Votes[o.ins[0].ReferKey()] = struct{}{}
+	}
+	f := newServerFilter()
+	if err := f.Load(&msg.TxFilterLoad{Type: o.typ, Data: o.wire}); err != nil {
+		return "err"
+	}
+	for _, x := range o.adds {
+		if err := f.Add(x); err != nil {
+			return "err-add"
+		}
+	}
+	r1 := f.MatchConfirmed(o.tx1)
+	r2 := f.MatchConfirmed(o.tx2)
+	return b2s(r1) + " " + b2s(r2)
 }
 
 func wireOf(r *hx.Rand) []byte {
@@ -1289,6 +1413,69 @@ func genDispatch(g *hx.Gen) {
 	}
 }
 
+func genDispatch2(g *hx.Gen) {
+	r := g.R
+	special := []byte{0x02, 0x02, 0x14, 0x15, 0x25, 0x41, 0x42, 0x51, 0x09, 0x0c}
+	for i := 0; i < g.N(1500, 15000); i++ {
+		typ := r.Pick(0, 1, 2, 3, 4, 5)
+		// a sparse filter so that "not matched" is observable
+		fl := &msg.FilterLoad{Filter: make([]byte, r.Pick(64, 128, 256)), HashFuncs: uint32(r.Pick(1, 2, 3, 5)), Tweak: uint32(r.U64())}
+		if fl.Tweak == math.MaxUint32 {
+			fl.Tweak = 1
+		}
+		buf := new(bytes.Buffer)
+		fl.Serialize(buf)
+		phs := [][]byte{r.Bytes(21), r.Bytes(21), r.Bytes(21)}
+		op := ctypes.NewOutPoint(uint256Of(r.Bytes(32)), uint16(r.Pick(0, 1, 300)))
+		var adds [][]byte
+		if r.Chance(70) {
+			adds = append(adds, phs[0])
+		}
+		if r.Chance(40) {
+			adds = append(adds, op.Bytes())
+		}
+		if r.Chance(10) {
+			adds = append(adds, r.Bytes(r.Pick(33, 100, 520)))
+		}
+		ty := special[r.Intn(len(special))]
+		ptype := r.Pick(0x0000, 0x0201, 0x0400, 0x0500, 0x0501, 0x0502)
+		var outs [][]byte
+		for j := r.Pick(1, 2, 3); j > 0; j-- {
+			outs = append(outs, phs[r.Intn(len(phs))])
+		}
+		var ins []*ctypes.OutPoint
+		if r.Chance(40) {
+			ins = append(ins, op)
+		}
+		if r.Chance(30) {
+			ins = append(ins, ctypes.NewOutPoint(uint256Of(r.Bytes(32)), 0))
+		}
+		k := r.Intn(len(outs))
+		lock1, lock2 := uint32(r.U64()), uint32(r.U64())
+		tx1 := mkTypedTxIn(ty, 9, 0, ptype, lock1, outs, ins)
+		h1, ok := safeHash(tx1)
+		if !ok {
+			continue
+		}
+		h2 := mkTypedTxIn(2, 9, 0, 0, lock2, nil, []*ctypes.OutPoint{ctypes.NewOutPoint(h1, uint16(k))}).Hash()
+		var sb strings.Builder
+		fmt.Fprintf(&sb, "txf2 %d %s %d", typ, hx.Hex(buf.Bytes()), len(adds))
+		for _, a := range adds {
+			sb.WriteString(" " + hx.Hex(a))
+		}
+		fmt.Fprintf(&sb, " %d %d %s %d %d", ty, ptype, hx.Hex(h1[:]), lock1, len(outs))
+		for _, o := range outs {
+			sb.WriteString(" " + hx.Hex(o))
+		}
+		fmt.Fprintf(&sb, " %d", len(ins))
+		for _, in := range ins {
+			fmt.Fprintf(&sb, " %s:%d", hx.Hex(in.TxID[:]), in.Index)
+		}
+		fmt.Fprintf(&sb, " %s %d %d %d", hx.Hex(h2[:]), lock2, k, r.Pick(0, 0, 1))
+		g.Emit("%s", sb.String())
+	}
+}
+
 func main() {
-	hx.Main(&hx.Prop{Name: "C39", Gen: func(g *hx.Gen) { gen(g); genLoad(g); genProtocol(g); genDispatch(g) }, Exec: exec, Oracle: oracle, Nontrivial: nontrivial, Bucket: bucket})
+	hx.Main(&hx.Prop{Name: "C39", Gen: func(g *hx.Gen) { gen(g); genLoad(g); genProtocol(g); genDispatch(g); genDispatch2(g) }, Exec: exec, Oracle: oracle, Nontrivial: nontrivial, Bucket: bucket})
 }
